@@ -61,7 +61,8 @@ add("Error:enum_all_ignored", ERRBASE + '#[derive(derive_more::Debug, derive_mor
     [SRC.format(v="M::T::A { source: M::Inner }"), SRC.format(v="M::T::B")])
 add("Error:enum_single_sourced", ERRBASE + '#[derive(derive_more::Debug, derive_more::Display, derive_more::Error)] #[display("t")] pub enum T { A(Inner) }',
     [SRC.format(v="M::T::A(M::Inner)")])
-for nm, marks in (("boxed", ""), ("boxed_send", " + ::core::marker::Send"), ("boxed_send_sync", " + ::core::marker::Send + ::core::marker::Sync")):
+for nm, marks in (("boxed", ""), ("boxed_send", " + ::core::marker::Send"), ("boxed_send_sync", " + ::core::marker::Send + ::core::marker::Sync"),
+                  ("boxed_send_sync_unwind", " + ::core::marker::Send + ::core::marker::Sync + ::core::panic::UnwindSafe")):
     add(f"Error:{nm}", ERRBASE + '#[derive(derive_more::Debug, derive_more::Display, derive_more::Error)] #[display("t")] '
         f"pub struct T {{ pub source: ::std::boxed::Box<dyn ::core::error::Error{marks} + 'static> }}",
         [SRC.format(v="M::T { source: ::std::boxed::Box::new(M::Inner) }")])
